@@ -15,7 +15,11 @@ chk.extra['rule'] = ('grammar-directed generator of whole .ff/.itp/.map/.mapping
                      'injected (the real reader must raise); component cases (tokenizer, prefix/order, arity, weights, '
                      'macros) are non-trivial when they contain a brace, a prefix or explicit order, a "--" delimiter, '
                      'a "!" marker or repeated target, a "$" respectively; .itp files carry #ifdef pragmas, .map and .mapping files '
-                     'are generated against toy force fields and compared through the driver; distinct = distinct protocol line')
+                     'are generated against toy force fields and compared through the driver; directories: 2-4 generated .ff files '
+                     '(colliding names) plus distractor entries in a real temporary directory loaded with ForceField(directory) under '
+                     'the natural and under permuted enumeration orders, mapping directory trees with .map / .mapping files at '
+                     'several depths, find_force_fields libraries; int() spellings (+n, 0n, n_m, n\\f) in index / resid / count '
+                     'columns; distinct = distinct protocol line')
 quiet_vermouth_logs()
 TABLES = c13_extract.extract()
 chk.lean(['VermouthProps.C13', 'VermouthProps.C13Tables', 'VermouthProps.C13Maps', 'VermouthProps.C13Dir', 'VermouthProps.C13Maps2'], 'driver_c13',
@@ -1847,6 +1851,7 @@ c13_dir.run_mapdir(chk, ask, backmap_library)
 chk.extra['mapdir_wall_s'] = round(time.time() - _t, 2)
 if chk.thorough:
     run_shipped()
+    c13_dir.run_shipped_dirs(chk, ask, dump_ff, repr_j, backmap_library)
 chk.extra['pending_findings'] = PENDING
 if PENDING:
     chk.notes.append('genuine defects observed and reported, not in known_findings.json (model transcribes them, '
